@@ -23,6 +23,7 @@ var c15seps = []string{"", " ", "\t", "'", `"`, `\`, "=", ";", "--", "/*", "*/",
 type c15stmt struct {
 	toks    []gen.Tok
 	pwTok   int // index of the password literal token
+	params  map[string]interface{} // bound parameters the statement uses (user name written as a placeholder)
 	pwEnd   int // index of the last token of the password (== pwTok unless it is split over adjacent literals)
 	markers []string
 	pw      string
@@ -69,7 +70,9 @@ func c15Gen(rg *mon.Rng) *c15stmt {
 	if rg.Bool() {
 		b.Kw("CREATE USER")
 		b.Ident(s.user)
+		userTok := len(b.Toks) - 1
 		c15GluePrefix(rg, b)
+		defer func() { c15Odd(rg, b, s, userTok); s.toks = b.Toks }()
 		b.Kw("WITH PASSWORD")
 		b.Str(s.pw)
 		s.pwTok = len(b.Toks) - 1
@@ -80,7 +83,9 @@ func c15Gen(rg *mon.Rng) *c15stmt {
 	} else {
 		b.Kw("SET PASSWORD FOR")
 		b.Ident(s.user)
+		userTok := len(b.Toks) - 1
 		c15GluePrefix(rg, b)
+		defer func() { c15Odd(rg, b, s, userTok); s.toks = b.Toks }()
 		b.Op("=")
 		b.Str(s.pw)
 		s.pwTok = len(b.Toks) - 1
@@ -88,6 +93,34 @@ func c15Gen(rg *mon.Rng) *c15stmt {
 	}
 	s.toks = b.Toks
 	return s
+}
+
+// c15Odd sometimes writes the user name as a bound parameter, or spells one
+// letter of a keyword with a look-alike that upper/lower-cases to it (judged
+// only if the parser accepts the text).
+func c15Odd(rg *mon.Rng, b *gen.Builder, s *c15stmt, userTok int) {
+	switch {
+	case rg.P(0.08):
+		key := rg.Pick("u", "user", "the user", "u1")
+		s.params = map[string]interface{}{key: map[string]interface{}{"identifier": s.user}}
+		b.Toks[userTok].Text = "$" + key
+		if strings.Contains(key, " ") || rg.Bool() {
+			b.Toks[userTok].Text = `$"` + key + `"`
+		}
+	case rg.P(0.08):
+		for try := 0; try < 6; try++ {
+			t := &b.Toks[rg.Intn(len(b.Toks))]
+			if t.Class != gen.CKw {
+				continue
+			}
+			for _, sub := range [][2]string{{"I", "\u0130"}, {"i", "\u0130"}, {"K", "\u212a"}, {"k", "\u212a"}, {"S", "\u017f"}, {"s", "\u017f"}, {"i", "\u0131"}} {
+				if k := strings.Index(t.Text, sub[0]); k >= 0 && rg.Bool() {
+					t.Text = t.Text[:k] + sub[1] + t.Text[k+1:]
+					return
+				}
+			}
+		}
+	}
 }
 
 // c15GluePrefix sometimes glues a bare word to the opening quote of the user
@@ -163,6 +196,11 @@ type c15span struct{ st, en int }
 
 // c15Check applies the oracles to one text with known password spans.
 func c15Check(c *Ctx, text string, spans []c15span, markers []string, detBase map[string]interface{}, local map[string]int64) {
+	c15CheckP(c, text, spans, markers, detBase, local, nil)
+}
+
+// c15CheckP: the same with bound parameters (a user name may be one).
+func c15CheckP(c *Ctx, text string, spans []c15span, markers []string, detBase map[string]interface{}, local map[string]int64, params map[string]interface{}) {
 	r := c.R
 	det := func(why string) map[string]interface{} {
 		d := map[string]interface{}{"input": text, "markers": markers, "why": why}
@@ -176,7 +214,11 @@ func c15Check(c *Ctx, text string, spans []c15span, markers []string, detBase ma
 	var san string
 	var printed string
 	if p, pv, stk := mon.Try(func() {
-		q, err = influxql.ParseQuery(text)
+		p := influxql.NewParser(strings.NewReader(text))
+		if params != nil {
+			p.SetParams(params)
+		}
+		q, err = p.ParseQuery()
 		if err == nil {
 			printed = q.String()
 		}
@@ -255,7 +297,7 @@ func c15Known(text string, spans []c15span) string { return "" }
 
 func checkC15(c *Ctx) (string, bool, []string) {
 	r := c.R
-	rule := "CREATE USER ... WITH PASSWORD / SET PASSWORD FOR ... = statements with passwords built from unique markers joined by hostile separators (spaces, both quotes, backslash, =, ;, comment openers, newline escape, non-ASCII, the words 'password'/'with password'), hostile user names (also with a bare word glued to the opening quote), every keyword case and whitespace layout incl. none around '=', comments in gaps, the password continued in adjacent string literals (judged only if the parser accepts that), an earlier Sanitize call on a same-length text with the same beginning and end but no password clause, one separator replaced by a blank-like character outside [ \\t\\n\\r] (VT, FF, NEL, NBSP, EM SPACE, LINE SEPARATOR, BOM, NUL, ...) in a fifth of them; alone and among 1-4 statements of other kinds. Marker search in String() and Sanitize(); exact preservation of the text outside the literal spans; Sanitize(t)==t for statements of all other kinds. Non-trivial = password has a separator or layout differs from canonical; distinct by text."
+	rule := "CREATE USER ... WITH PASSWORD / SET PASSWORD FOR ... = statements with passwords built from unique markers joined by hostile separators (spaces, both quotes, backslash, =, ;, comment openers, newline escape, non-ASCII, the words 'password'/'with password'), user names written as bound parameters, one keyword letter replaced by a look-alike that case-folds to it (judged only if accepted), hostile user names (also with a bare word glued to the opening quote), every keyword case and whitespace layout incl. none around '=', comments in gaps, the password continued in adjacent string literals (judged only if the parser accepts that), an earlier Sanitize call on a same-length text with the same beginning and end but no password clause, one separator replaced by a blank-like character outside [ \\t\\n\\r] (VT, FF, NEL, NBSP, EM SPACE, LINE SEPARATOR, BOM, NUL, ...) in a fifth of them; alone and among 1-4 statements of other kinds. Marker search in String() and Sanitize(); exact preservation of the text outside the literal spans; Sanitize(t)==t for statements of all other kinds. Non-trivial = password has a separator or layout differs from canonical; distinct by text."
 	assume := []string{"only parser-accepted texts are judged", "the replacement text for the literal is not prescribed, only that it carries no password material"}
 	if c.Replay != nil {
 		local := map[string]int64{}
@@ -286,6 +328,7 @@ func checkC15(c *Ctx) (string, bool, []string) {
 		var sb strings.Builder
 		var spans []c15span
 		var markers []string
+		var params map[string]interface{}
 		comments := rg.P(0.25)
 		for j := 0; j < nst; j++ {
 			if j > 0 {
@@ -311,6 +354,13 @@ func checkC15(c *Ctx) (string, bool, []string) {
 			spans = append(spans, c15span{sb.Len() + st, sb.Len() + en})
 			sb.WriteString(t)
 			markers = append(markers, s.markers...)
+			for k, v := range s.params {
+				if params == nil {
+					params = map[string]interface{}{}
+				}
+				params[k] = v
+				local["user-as-parameter"]++
+			}
 		}
 		text := sb.String()
 		var sj []interface{}
@@ -342,7 +392,7 @@ func checkC15(c *Ctx) (string, bool, []string) {
 			_ = influxql.Sanitize(text[:len(text)/2])
 			local["decoy-called-first"]++
 		}
-		c15Check(c, text, spans, markers, map[string]interface{}{"spans": sj}, local)
+		c15CheckP(c, text, spans, markers, map[string]interface{}{"spans": sj, "params": fmt.Sprintf("%v", params)}, local, params)
 		r.DistinctStr(text)
 		if comments {
 			local["with-comments"]++
